@@ -312,6 +312,15 @@ func (e *Engine) generate(u *Unit) (res *UnitResult, vcOut *VC) {
 			t := vc.specIn(st, r)
 			vc.assume(st, t.S)
 		}
+		for _, r := range vc.contract.Assumes {
+			t := vc.specIn(st, r)
+			vc.assume(st, t.S)
+			lbl := r.Label
+			if lbl == "" {
+				lbl = "LEMMA"
+			}
+			vc.note(fmt.Sprintf("A-%s<%s>: precondition assumed by stated lemma, not checked at call sites: %s", lbl, shortKey(u.Key), r.Text))
+		}
 		vc.entry.guard = st.guard
 		// vacuity probe: the precondition must be satisfiable
 		probe := &Obligation{Name: u.Key + "#vacuity[requires]", Kind: "vacuity", Unit: u.Key, Pos: vc.position(u.Body.Pos()),
@@ -577,6 +586,40 @@ func dischargeAll(obls []*Obligation, o solveOpts, workers int, keepDir string) 
 	}
 	close(ch)
 	wg.Wait()
+	// second chance under light load: a query that timed out while 3 x workers solver processes shared the
+	// cores is retried with a few workers and a longer time-out, so that a slow-but-provable obligation does
+	// not turn into a false alarm. Capped: a tree with many failing obligations is not retried wholesale.
+	var retry []*Obligation
+	for _, ob := range obls {
+		if !ob.MustFail && !ob.NoRetry && ob.Result.Verdict == Unknown && (strings.Contains(ob.Result.Output, "timeout") || ob.Result.Secs >= 0.8*float64(o.TimeoutS)) {
+			retry = append(retry, ob)
+		}
+	}
+	if len(retry) == 0 || len(retry) > 24 {
+		return
+	}
+	ch2 := make(chan *Obligation)
+	var wg2 sync.WaitGroup
+	for i := 0; i < 4; i++ {
+		wg2.Add(1)
+		go func() {
+			defer wg2.Done()
+			for ob := range ch2 {
+				oo := o
+				oo.KeepDir = keepDir
+				oo.TimeoutS = o.TimeoutS * 4
+				first := ob.Result.Secs
+				r := solve(ob.Name, queries[ob], oo)
+				r.Secs += first
+				ob.Result = r
+			}
+		}()
+	}
+	for _, ob := range retry {
+		ch2 <- ob
+	}
+	close(ch2)
+	wg2.Wait()
 }
 
 
